@@ -20,13 +20,13 @@ ENCODED = ["twisted.internet.task:Cooperator._tick", "twisted.internet.task:Coop
            "twisted.internet.task:CooperativeTask.stop", "twisted.internet.task:CooperativeTask._completeWith",
            "twisted.internet.task:CooperativeTask._checkFinish",
            "twisted.internet.task:CooperativeTask._oneWorkUnit"]
-BOUNDS = {"quick": {"n": 2, "slen": 3, "hist": 4, "n3": 3, "hist3": 3},
-          "thorough": {"n": 2, "slen": 3, "hist": 5, "n3": 3, "hist3": 4}}
+BOUNDS = {"quick": {"n": 2, "slen": 3, "hist": 4, "n3": 3, "hist3": 4},
+          "thorough": {"n": 2, "slen": 3, "hist": 5, "n3": 3, "hist3": 5}}
 B = {}
 BOUNDS_TEXT = ("Cooperator(started=True) with a list scheduler and a termination predicate that ends the tick after "
                "one work unit; n tasks (history: n=2 with <= hist operations, history3: n3=3 with <= hist3 "
-               "operations) all created up front, iterator scripts of slen symbolic steps {yield value, yield "
-               "unfired Deferred, raise, stop} then StopIteration; operations {tick, pause i, resume i, stop i, fire "
+               "operations) all created up front, iterator scripts of slen symbolic steps {0 yield value, 1 yield "
+               "unfired Deferred, 2 raise, any other integer stop} then StopIteration; operations {tick, pause i, resume i, stop i, fire "
                "the Deferred task i waits on with success / failure, Cooperator.stop()}; a history ends at the "
                "first operation that is not applicable or that only raises (its exception is checked)")
 OUTSIDE = ["resume() of a task that is paused only because it waits on a Deferred it yielded (unbalanced "
@@ -72,6 +72,13 @@ class _DC:
 
 def _one_unit():
     return lambda: True
+
+
+def _conc(v, hi):
+    for c in range(hi + 1):
+        if v == c:
+            return c
+    return -1
 
 
 _FIN_EXC = {"done": TaskDone, "failed": TaskFailed, "stopped": TaskStopped, "sched": SchedulerStopped}
@@ -132,7 +139,7 @@ def _run(n, scripts, ops, slen):
             nexts.append((i, epoch[0], tuple(m_tasks)))
             p = pos[i]
             pos[i] = p + 1
-            st = scripts[i * slen + p] if p < slen else 3
+            st = scripts[i * slen + p] if p < slen else 3     # 0 value, 1 Deferred, 2 raise, anything else stop
             if st == 0:
                 return ("v", i, p)
             if st == 1:
@@ -220,7 +227,10 @@ def _run(n, scripts, ops, slen):
     msg = state_ok()
     if msg:
         return finish(_fail("initial: " + msg))
-    for o in ops:
+    for sym_o in ops:
+        o = _conc(sym_o, 5 * n + 1)                 # one path per operation code, concrete afterwards
+        if o < 0:
+            return finish(True)                     # not an operation code
         if o == 0:                                  # ---- tick
             pc = pending_calls()
             if len(pc) != 1:
@@ -346,8 +356,8 @@ def _run(n, scripts, ops, slen):
 
 def history(scripts: List[int], ops: List[int]) -> bool:
     """
-    pre: len(scripts) == B['n'] * B['slen'] and all(0 <= s <= 3 for s in scripts)
-    pre: len(ops) <= B['hist'] and all(0 <= o <= 5 * B['n'] + 1 for o in ops)
+    pre: len(scripts) == B['n'] * B['slen']
+    pre: len(ops) <= B['hist']
     post: _
     """
     return _run(B['n'], scripts, ops, B['slen'])
@@ -355,27 +365,37 @@ def history(scripts: List[int], ops: List[int]) -> bool:
 
 def history3(scripts: List[int], ops: List[int]) -> bool:
     """
-    pre: len(scripts) == B['n3'] * B['slen'] and all(0 <= s <= 3 for s in scripts)
-    pre: len(ops) <= B['hist3'] and all(0 <= o <= 5 * B['n3'] + 1 for o in ops)
+    pre: len(scripts) == B['n3'] * B['slen']
+    pre: len(ops) <= B['hist3']
     post: _
     """
     return _run(B['n3'], scripts, ops, B['slen'])
 
 
-def _shards(nkey):
+def _shards(nkey, two_level):
     def f(tier):
         n = BOUNDS[tier][nkey]
-        # first operation; tick-first (the bulk) is split again on the first script step of task 0
-        out = [("len(ops) == 0",)]
-        out += [("len(ops) >= 1 and ops[0] == 0", "scripts[0] == %d" % s) for s in range(4)]
-        out += [("len(ops) >= 1 and ops[0] == %d" % o,) for o in range(1, 5 * n + 2)]
+        # split on the first operation; tick-first (the bulk) is split again on the first script step of task 0;
+        # resume / fire as first operation end the history at once and share one shard with the empty history
+        out = [("len(ops) == 0 or (%d <= ops[0] <= %d) or ops[0] >= %d" % (n + 1, 2 * n, 3 * n + 1),
+                "len(ops) == 0 or ops[0] != %d" % (5 * n + 1))]
+        heavy = [("len(ops) >= 1 and ops[0] == 0", "scripts[0] == %d" % s) for s in range(3)]
+        heavy += [("len(ops) >= 1 and ops[0] == 0", "scripts[0] < 0 or scripts[0] > 2")]
+        heavy += [("len(ops) >= 1 and ops[0] == %d" % o,) for o in list(range(1, n + 1)) +
+                  list(range(2 * n + 1, 3 * n + 1)) + [5 * n + 1]]
+        if two_level:
+            second = ["len(ops) < 2 or ops[1] <= 0", "len(ops) >= 2 and 1 <= ops[1] <= %d" % n,
+                      "len(ops) >= 2 and %d <= ops[1] <= %d" % (n + 1, 3 * n), "len(ops) >= 2 and ops[1] >= %d" % (3 * n + 1)]
+            heavy = [h + (x,) for h in heavy for x in second]
+        out += heavy
+        out += [("len(ops) >= 1 and ops[0] < 0",)]
         return out
     return f
 
 
 HARNESSES = [
-    H(history, shards=_shards("n"), timeout={"quick": 90, "thorough": 1500}),
-    H(history3, shards=_shards("n3"), timeout={"quick": 90, "thorough": 1500}),
+    H(history, shards=_shards("n", False), timeout={"quick": 90, "thorough": 1500}),
+    H(history3, shards=_shards("n3", True), timeout={"quick": 90, "thorough": 1500}),
 ]
 
 VECTORS = {
@@ -383,6 +403,7 @@ VECTORS = {
                 ([1, 0, 0, 0, 0, 0], [0, 1, 7, 3]), ([0, 0, 0, 0, 0, 0], [1, 0, 3, 11]),
                 ([1, 0, 0, 1, 0, 0], [0, 0, 9, 5]), ([3, 0, 0, 2, 0, 0], [0, 0, 1, 6]),
                 ([1, 0, 0, 0, 0, 0], [0, 5, 9, 1])],
-    "history3": [([0] * 9, [0, 0, 0]), ([1, 0, 0, 0, 0, 0, 0, 0, 0], [0, 10, 0]),
-                 ([0, 0, 0, 0, 0, 0, 0, 0, 0], [0, 1, 0]), ([0, 0, 0, 2, 0, 0, 0, 0, 0], [0, 0, 16])],
+    "history3": [([0] * 9, [0, 0, 0, 0]), ([1, 0, 0, 0, 0, 0, 0, 0, 0], [0, 10, 0, 0]),
+                 ([0, 0, 0, 0, 0, 0, 0, 0, 0], [0, 1, 0, 0]), ([0, 0, 0, 2, 0, 0, 0, 0, 0], [0, 0, 16]),
+                 ([0, 0, 0, 1, 0, 0, 0, 0, 0], [0, 0, 2, 14])],
 }
